@@ -31,9 +31,13 @@ def h_neuron(e, cfg):
     hp = C03.HP[cls][0]
     P = C03.build(cls, shape, dt, rt, hp, B)
     Qs = [C03.build(cls, shape, dt, rt, hp, 1) for _ in range(B)]
+    adaptive = cls in C03.ADAPT_THRESH | C03.ADAPT_CURR
+    freeze = cfg.get("freeze", "eval")
     for n in [P] + Qs:
-        n.eval()        # adaptations are learned quantities (documented batch reduction): frozen here
-    e.tag(component=cls)
+        # adaptations are learned quantities (documented batch reduction): frozen here, by eval mode or by the explicit adapt=False argument in training mode
+        n.eval() if freeze == "eval" else n.train()
+    kw = {"adapt": False} if (adaptive and freeze == "kwarg") else {}
+    e.tag(component=cls, freeze=freeze)
     V = e.sym((B, *shape), torch.float32, "V", lo=-200, hi=200)
     R = e.sym((B, *shape), torch.float32, "R", lo=0, hi=C03.K(rt))
     I = e.sym((B, *shape), torch.float32, "I", lo=-500, hi=500)
@@ -47,13 +51,18 @@ def h_neuron(e, cfg):
         if A is not None:
             setattr(n, attr, A.clone())
     lock = cfg["lock"]
-    outP = P(I, refrac_lock=lock)
-    for b, q in enumerate(Qs):
-        outQ = q(slice_b(I, b), refrac_lock=lock)
-        e.oblige_eq("neuron:spikes", outP[b:b + 1], e.read(outQ), sample=b)
-        e.oblige_eq("neuron:voltage", P.voltage[b:b + 1], e.read(q.voltage), sample=b)
-        e.oblige_eq("neuron:refrac", P.refrac[b:b + 1], e.read(q.refrac), sample=b)
-        e.oblige_eq("neuron:spike-attr", P.spike[b:b + 1], e.read(q.spike), sample=b)
+    for t in range(cfg.get("T", 1)):
+        if t:
+            I = e.sym((B, *shape), torch.float32, f"I{t}", lo=-500, hi=500)
+        outP = P(I, refrac_lock=lock, **kw)
+        for b, q in enumerate(Qs):
+            outQ = q(slice_b(I, b), refrac_lock=lock, **kw)
+            e.oblige_eq("neuron:spikes", outP[b:b + 1], e.read(outQ), sample=b, step=t)
+            e.oblige_eq("neuron:voltage", P.voltage[b:b + 1], e.read(q.voltage), sample=b, step=t)
+            e.oblige_eq("neuron:refrac", P.refrac[b:b + 1], e.read(q.refrac), sample=b, step=t)
+            e.oblige_eq("neuron:spike-attr", P.spike[b:b + 1], e.read(q.spike), sample=b, step=t)
+        if A is not None:
+            e.oblige_eq("neuron:frozen-adaptation-unchanged", getattr(P, attr), e.read(A), step=t)
 
 
 def plant_syn(e, syns, cfg, ptr):
@@ -270,6 +279,9 @@ def checks(tier):
     th = tier == "thorough"
     neu = [dict(cls=c, B=B, dt=dt, refrac_t=rt, lock=lock) for c in C03.HP for B in ((2, 3) if th else (2,)) for (dt, rt) in (((1.0, 2.0), (0.5, 0.2), (1.0, 0.0)) if th else ((1.0, 2.0),))
            for lock in (True, False)]
+    # adaptive classes: frozen by the explicit adapt=False argument while in training mode, two steps (a coupled adaptation shows at the second)
+    neu += [dict(cls=c, B=2, dt=1.0, refrac_t=2.0, lock=lock, freeze="kwarg", T=2) for c in sorted(C03.ADAPT_THRESH | C03.ADAPT_CURR) for lock in ((True, False) if th else (True,))]
+    neu += [dict(cls=c, B=2, dt=1.0, refrac_t=2.0, lock=True, freeze="eval", T=2) for c in sorted(C03.ADAPT_THRESH | C03.ADAPT_CURR)]
     syn = []
     for s in C04.SYN:
         for delay in (0.0, 2.0):
@@ -287,7 +299,7 @@ def checks(tier):
 
 
 BOUNDS = {
-    "quick": {"batch": 2, "neurons": "8 classes, one step from an arbitrary planted state (adaptation frozen), refrac_lock on/off", "synapses": "4 classes, one step from an arbitrary planted history, "
+    "quick": {"batch": 2, "neurons": "8 classes, one step from an arbitrary planted state (adaptation frozen), refrac_lock on/off; the 4 adaptive classes also for two steps with adaptation frozen by eval mode and by adapt=False in training mode", "synapses": "4 classes, one step from an arbitrary planted history, "
               "delay 0 / 2dt, in-place and not, histories and delayed reads with a symbolic selector compared", "connections": "4 types x delta/single-exponential, with and without (grid) symbolic delays, T=2",
               "layers": "Serial / Biclique / RecurrentSerial, T=2", "trainers": "STDP, TripletSTDP, MSTDP, MSTDPET, DelayAdjustedSTDP(D) with batch_reduction=sum, T=2; STDP / TripletSTDP / MSTDP with delayed=True on heterogeneous per-synapse delays, T=3"},
     "thorough": {"batch": [2, 3], "T": 3, "all four synapses in connections": True},
